@@ -18,6 +18,7 @@ RULE = ("a generated program is run on device D1; D2 is a copy of D1 with a rand
         "raise or return a sequence that satisfies every limit of D2 and the tiling invariant; switch_register to a "
         "register with the same ids (moved atoms) must give the identical timeline. non-trivial = distinct case where "
         "strict returned and >= 1 timing-relevant parameter of a used channel differed")
+RULE += " Later additions: directed: a last delay that is not a multiple of the new clock period and a new max_sequence_duration within one clock period above the sequence's end."
 ASSUMPTIONS = ["programs contain no deliberately invalid calls; cases tainted by a C09 partial effect are set aside",
                "timeline identity is compared by channel name (ids may change)"]
 TIERS = {"quick": dict(cases=2100, shards=8, case_timeout=180, shard_timeout=900),
